@@ -99,6 +99,22 @@ def run(ctx):
                       "script": [{"op": "adopt", "p": "f"}, {"op": "adopt", "p": "a1"}, {"op": "accept"}, {"op": "wait_running"}, {"op": "wait_start", "p": "f"}, {"op": "wait_start", "p": "a1"},
                                  {"op": "park", "point": "mr.aclose.end"}, {"op": "end", "p": "f", "how": "exc:UserExc"}, {"op": "wait_park", "point": "mr.aclose.end"},
                                  {"op": "adopt", "p": "late", "ctx": "thread"}, {"op": "release", "point": "mr.aclose.end"}, {"op": "wait_end"}], "shape": "targeted-adopt-after-runners-cleared"})
+    # a service created in the same polling interval in which another (finished) service
+    # instance is garbage collected: the NUMBER of live units is unchanged, the set is not
+    for k, (f1, f2) in enumerate((("threading", "asyncio"), ("asyncio", "trio"), ("trio", "threading"))):
+        extra.append({"seed": ctx.seed + k, "jitter": 0.0, "accept_delay": 1.0, "timeout": 16.0, "payloads": {"t1": {"flavour": "trio"}}, "services": {"s1": {"flavour": f1}, "s2": {"flavour": f2}, "s3": {"flavour": f1}},
+                      "script": [{"op": "new_service", "s": "s1"}, {"op": "adopt", "p": "t1"}, {"op": "accept"}, {"op": "wait_running"}, {"op": "wait_start", "p": "s1"}, {"op": "end", "p": "s1", "how": "none"}, {"op": "polls", "n": 4},
+                                 {"op": "new_service", "s": "s2", "ctx": "driver"}, {"op": "drop_service", "s": "s1"}, {"op": "wait_start", "p": "s2"}, {"op": "step", "p": "s2"}, {"op": "end", "p": "s2", "how": "none"}, {"op": "polls", "n": 1},
+                                 {"op": "drop_service", "s": "s2"}, {"op": "new_service", "s": "s3", "ctx": "thread"}, {"op": "wait_start", "p": "s3"}, {"op": "polls", "n": 2}], "shape": "targeted-service-created-while-another-is-collected"})
+    # a burst of adoptions from inside one synchronous step of a coroutine payload (nothing
+    # can drain a hand-over buffer meanwhile): "for all numbers of payloads"
+    for f, n in (("trio", 300), ("asyncio", 120)):
+        burst = {"q%03d" % i: {"flavour": f} for i in range(1, n + 1)}
+        pl = dict(burst)
+        pl["c1"] = {"flavour": f}
+        extra.append({"seed": ctx.seed, "jitter": 0.0, "poll": 0.05, "timeout": 25.0, "payloads": pl,
+                      "script": [{"op": "adopt", "p": "c1"}, {"op": "accept"}, {"op": "wait_running"}, {"op": "wait_start", "p": "c1"}, {"op": "adopt_burst", "ctx": "payload:c1", "ps": sorted(burst)},
+                                 {"op": "wait_start", "p": "q%03d" % n}, {"op": "wait_start", "p": "q001"}, {"op": "polls", "n": 3}], "shape": "targeted-adoption-burst"})
     first = True
     for allow, ss in groups.items():
         scen.run_family(ctx, ss, names=NAMES, allow=allow, mc_invariants=["AtMostOnce", "AdoptReturnsNone", "DiscardOnlyWhenShuttingDown"], mc_properties=["ExactlyOnceLive"], per_shape=14 if thorough else 4, depth=40, label="c03" + "".join(a[:2] for a in allow), extra_scenarios=(extra if first else ()))
